@@ -259,6 +259,12 @@ func superRules() []c07Rule {
 }
 
 func mkCaller(c DBCaller) db.Caller {
+	if c.ID >= 1000 { // a tagged node: no user name, identified by its tag set
+		return db.Caller{
+			Principal:   audit.Principal{Tags: []string{fmt.Sprintf("tag:t%d", c.ID-1000)}, IP: netip.MustParseAddr("100.64.0.1"), Hostname: "h"},
+			Permissions: toACL(c.Rules),
+		}
+	}
 	return db.Caller{
 		Principal:   audit.Principal{User: fmt.Sprintf("user%d", c.ID), IP: netip.MustParseAddr("100.64.0.1"), Hostname: "h"},
 		Permissions: toACL(c.Rules),
